@@ -3,7 +3,7 @@
 From Coq Require Extraction.
 From Coq Require Import ExtrOcamlBasic.
 From Coq Require Import List NArith.
-From SosModel Require Import base.Sha256 model.Merkle base.Bytes model.Formats model.EventLog model.MergePatches model.Folder model.SyncProto model.Search model.SrvReq model.Paths model.Crash model.Auth model.Upgrade model.Taint model.Files.
+From SosModel Require Import base.Sha256 model.Merkle base.Bytes model.Formats model.EventLog model.MergePatches model.Folder model.SyncProto model.Search model.SrvReq model.Paths model.Crash model.Auth model.Upgrade model.Taint model.Files model.ChangePassword.
 Extraction "../driver/model.ml"
   Sha256.sha256
   Merkle.root Merkle.head Merkle.proof_at Merkle.tree_compare Merkle.verify_leaves
@@ -25,4 +25,5 @@ Extraction "../driver/model.ml"
   Auth.authorize
   Upgrade.import Upgrade.db_log
   Taint.split_event Taint.join
-  Files.freduce Files.receive.
+  Files.freduce Files.receive
+  ChangePassword.id_lookup ChangePassword.id_save.
